@@ -386,6 +386,7 @@ type mixOpts struct {
 	worldTasks int
 	withOps    float64
 	consumers  []string
+	burst      float64
 }
 
 func genMix(prop string, seed uint64, run int, o mixOpts) *Scenario {
@@ -479,6 +480,14 @@ func genMix(prop string, seed uint64, run int, o mixOpts) *Scenario {
 				wt[k] = append(wt[k], Op{K: OpQuiesce})
 			}
 		}
+	}
+	if g.chance(o.burst) {
+		// a burst larger than most channel buffers
+		d := g.pick(dirs)
+		for i, n := 0, 70+g.r.Intn(140); i < n; i++ {
+			wt[0] = append(wt[0], Op{K: OpCreate, P: fmt.Sprintf("%s/burst%d", d, i)})
+		}
+		sc.Cfg.MaxSteps = 60000
 	}
 	for k := range wt {
 		sc.Tasks = append(sc.Tasks, TaskScript{Name: fmt.Sprintf("world%d", k), Role: "world", Ops: wt[k]})
